@@ -136,6 +136,10 @@ C08 = family("C08", BASE, Teams=fs("t1"), TeamMode="conCascadeNull", Vias=fs("pe
 C15 = family("C15", BASE, Vias=fs("people", "staff"), Ops=fs("create", "update", "delete", "deleteWhere"), WhereKinds=fs("all", "name", "grade"), NamePool=fs("a", ""), NickPool=fs(NIL, "x"), RolePool=fs(fs(), fs("r1")),
              GradePool=fs("g1", "g2", ""), LeadPool=fs(False, True), FieldSets=Sub("FS_C15"), MaxOps=2)
 family("C15_ext", C15, ChildExtended=True)
+# two names for two people: most updates of the name collide with the other entity's (a rejection raised by a parent index *after* the write)
+C15_dup = family("C15_dup", C15, NamePool=fs("a", "b"), IdNames=False, NickPool=fs(NIL), RolePool=fs(fs()), GradePool=fs("g1", "g2"), LeadPool=fs(False),
+                 Ops=fs("create", "update", "delete"), WhereKinds=fs())
+family("C15_dup_ext", C15_dup, ChildExtended=True)
 
 # ---- features registered on the child store (teams.chief -> staff with its delete constraint on staff; link collection staff.squads <-> teams.squadStaff)
 CF = family("CF", BASE, **THREE, Teams=fs("t1", "t2"), ChildFeatures=True, ChiefPool=fs(NIL, "p1", "p2"), Vias=fs("people", "staff"),
